@@ -298,7 +298,7 @@ fn on_step<K: Kit>(tier: &str, idx: usize, st: &mut PrmStep<K>, rep: &mut Report
     // is as it was, and what follows is answered from that roadmap
     let budgets: Vec<std::time::Duration> = if tier != "quick" {
         vec![std::time::Duration::ZERO, crate::drv::iters(1), crate::drv::iters(2)]
-    } else if (st.hist.len() + st.letter as usize) % 2 == 0 {
+    } else if (st.hist.iter().map(|x| *x as usize).sum::<usize>() + st.letter as usize) % 4 == 1 {
         vec![std::time::Duration::ZERO]
     } else {
         vec![]
